@@ -1,6 +1,408 @@
-(* GenoViews.v — the exported views of a DNA (property C12).  Definitions only.  (in progress) *)
+(* GenoViews.v — the exported views of a DNA (property C12).  Definitions only.
+
+   flat numbers (to_numbers / from_numbers), nested numbers (to_numbers(flatten=False)), the compact
+   JSON value (sym_jsonify(compact=True)) and the constructor's parser of nested values
+   (_parse_value_and_children), the verbose JSON form, to_dict / from_dict under every key / value /
+   multi-choice style, decision ids, lookup by id / name / decision point. *)
 From Coq Require Import ZArith NArith List Bool Arith.
 Import ListNotations.
-From PG Require Import Common.Tr Model.Geno.
-Local Open Scope Z_scope.
-Definition run_views (fuel : nat) (op : Z) (args : list tr) : tr := ebad.
+From PG Require Import Model.Geno.
+
+(* ---- flat numbers ------------------------------------------------------------------------------ *)
+Fixpoint to_numbers (d : dna) : list dval :=
+  match d with D v cs => (if is_none v then [] else [v]) ++ flat_map to_numbers cs end.
+
+Definition map_sto {A X R} (f : A -> R -> option (X * R)) : list A -> R -> option (list X * R) :=
+  fix go l r := match l with
+                | [] => Some ([], r)
+                | a :: l' => match f a r with
+                             | Some (x, r1) => match go l' r1 with Some (xs, r2) => Some (x :: xs, r2) | None => None end
+                             | None => None end
+                end.
+(* DNA.from_numbers._bind_decisions: read the decisions off the list, guided by the specification *)
+Fixpoint parse_nums (s : dspec) (l : list dval) {struct s} : option (sdna * list dval) :=
+  match s with Space es =>
+    match map_sto (fun e l0 => parse_nums_p e l0) es l with
+    | Some (ds, r) => Some (SSpace ds, r) | None => None end end
+with parse_nums_p (p : dpoint) (l : list dval) {struct p} : option (pdna * list dval) :=
+  match p with
+  | Choices k cands _ _ _ _ =>
+      match map_sto (fun (_ : nat) l0 =>
+               match l0 with
+               | [] => None
+               | v :: r => match index_of v (length cands) with
+                           | None => None
+                           | Some c => match with_nth (fun s => parse_nums s r) None cands c with
+                                       | Some (sub, r') => Some ((c, sub), r') | None => None end
+                           end
+               end) (seq 0 k) l with
+      | Some (cs, r) => Some (PChoices cs, r) | None => None end
+  | FloatP _ _ _ => match l with VFlt f :: r => Some (PFloat f, r) | _ => None end
+  | CustomP _ => match l with VStr s :: r => Some (PCustom s, r) | _ => None end
+  end.
+Definition from_numbers (q : quirks) (s : dspec) (l : list dval) : option bdna :=
+  match parse_nums s l with
+  | Some (sd, []) => bind q s (normalize sd)
+  | _ => None
+  end.
+
+(* ---- nested values ------------------------------------------------------------------------------ *)
+Inductive nest := NV (v : dval) | NL (l : list nest) | NT (l : list nest).
+(* to_numbers(flatten=False).  [chain] = how a node with a single child that is itself a tuple is
+   rendered: the code as found wraps the child's items in a list (lossy); see the finding. *)
+Section Nested.
+  Variable lossy_chain : bool.
+  Fixpoint to_nested (d : dna) : nest :=
+    match d with D v cs =>
+      if is_none v then NL (map to_nested cs) else
+      match cs with
+      | [] => NV v
+      | [c] => match to_nested c with
+               | NT l => if lossy_chain then NT [NV v; NL l] else NT (NV v :: l)
+               | x => NT [NV v; x] end
+      | _ => NT [NV v; NL (map to_nested cs)]
+      end end.
+End Nested.
+(* DNA.sym_jsonify(compact=True, type_info=False) *)
+Fixpoint to_compact (d : dna) : nest :=
+  match d with D v cs =>
+    match cs with
+    | [] => NV v
+    | _ => let nodes := map to_compact cs in
+           if is_none v then NL nodes else
+           match nodes with
+           | [NT l] => NT (NV v :: l)
+           | [single] => NT [NV v; single]
+           | _ => NT [NV v; NL nodes]
+           end
+    end end.
+(* DNA(value) for a scalar / list / tuple value: _parse_value_and_children.  None = ValueError *)
+Definition opt_map_all {A B} (f : A -> option B) : list A -> option (list B) :=
+  fix go l := match l with [] => Some [] | a :: r => match f a, go r with Some b, Some bs => Some (b :: bs) | _, _ => None end end.
+Fixpoint parse_nest (fuel : nat) (x : nest) : option dna :=
+  match fuel with O => None | S f =>
+    match x with
+    | NV v => Some (D v [])
+    | NL l => match opt_map_all (parse_nest f) l with
+              | Some [c] => Some c
+              | Some cs => Some (D VNone cs)
+              | None => None end
+    | NT l =>
+        match l with
+        | NV v :: rest =>
+            match v with
+            | VInt _ | VFlt _ =>
+                match rest with
+                | [] => None                                       (* fewer than 2 items *)
+                | [NL items] => match opt_map_all (parse_nest f) items with Some cs => Some (D v cs) | None => None end
+                | [NV VNone] => Some (D v [])                      (* silently ignored *)
+                | [NV w] => Some (D v [D w []])
+                | [NT _] => Some (D v [])                          (* silently ignored *)
+                | _ => match parse_nest f (NT rest) with Some c => Some (D v [c]) | None => None end
+                end
+            | _ => None
+            end
+        | _ => None
+        end
+    end end.
+(* the verbose JSON form keeps value and children apart, children in compact form *)
+Definition to_verbose (d : dna) : dval * list nest := match d with D v cs => (v, map to_compact cs) end.
+Definition parse_verbose (fuel : nat) (x : dval * list nest) : option dna :=
+  match opt_map_all (parse_nest fuel) (snd x) with Some cs => Some (mk (fst x) cs) | None => None end.
+
+(* ---- decision points, ids, names ------------------------------------------------------------------ *)
+Inductive pkind := PKChoice (n : nat) (lits : list lit) | PKFloat (lo hi : flt) | PKCustom.
+(* one entry of DNASpec.decision_points: address, id, name, kind, and for a sub-choice of a
+   multi-choice its index together with the parent's address and id *)
+Record dpinfo := { i_addr : addr; i_id : did; i_name : option str; i_kind : pkind;
+                   i_sub : option (nat * addr * did) }.
+Definition mapi {A B} (f : nat -> A -> B) : nat -> list A -> list B :=
+  fix go i l := match l with [] => [] | a :: r => f i a :: go (S i) r end.
+(* DNASpec.id: parent id + location; a candidate Space adds the conditional key [=j/n] *)
+Fixpoint dps (s : dspec) (a : addr) (pid : did) {struct s} : list dpinfo :=
+  match s with Space es => concat (mapi (fun i e => dps_p e (a ++ [i]) pid) 0 es) end
+with dps_p (p : dpoint) (a : addr) (pid : did) {struct p} : list dpinfo :=
+  match p with
+  | Choices k cands _ _ (loc, name) lits =>
+      let n := length cands in
+      let id := pid ++ loc in
+      let single := fun (a' : addr) (id' : did) (sub : option (nat * addr * did)) =>
+        {| i_addr := a'; i_id := id'; i_name := name; i_kind := PKChoice n lits; i_sub := sub |}
+        :: concat (mapi (fun j c => dps c (a' ++ [j]) (id' ++ [KCond j n])) 0 cands) in
+      if k =? 1 then single a id None
+      else concat (map (fun i => single (a ++ [i]) (id ++ [KIdx i]) (Some (i, a, id))) (seq 0 k))
+  | FloatP lo hi (loc, name) => [{| i_addr := a; i_id := pid ++ loc; i_name := name; i_kind := PKFloat lo hi; i_sub := None |}]
+  | CustomP (loc, name) => [{| i_addr := a; i_id := pid ++ loc; i_name := name; i_kind := PKCustom; i_sub := None |}]
+  end.
+Definition decision_points (s : dspec) : list dpinfo := dps s [] [].
+
+Definition addr_eqb (a b : addr) : bool := if list_eq_dec Nat.eq_dec a b then true else false.
+Definition ikey_eqb (a b : ikey) : bool :=
+  match a, b with
+  | KName x, KName y => str_eqb x y
+  | KIdx i, KIdx j => i =? j
+  | KCond i n, KCond j m => (i =? j) && (n =? m)
+  | _, _ => false end.
+Fixpoint did_eqb (a b : did) : bool :=
+  match a, b with [], [] => true | x :: a', y :: b' => ikey_eqb x y && did_eqb a' b' | _, _ => false end.
+Definition info_at (infos : list dpinfo) (a : addr) : option dpinfo := find (fun i => addr_eqb (i_addr i) a) infos.
+
+(* ---- dictionaries ------------------------------------------------------------------------------------ *)
+Inductive key_type := KT_id | KT_name_or_id | KT_dna_spec.
+Inductive value_type := VT_value | VT_dna | VT_choice | VT_literal | VT_choice_and_literal.
+Inductive mc_key := MC_subchoice | MC_parent | MC_both.
+Inductive dkey := DKId (i : did) | DKName (s : str) | DKSpec (a : addr).
+(* '{i}/{n}' and '{i}/{n} ({literal})' are kept structured *)
+Inductive dleaf := LfNone | LfV (v : dval) | LfDna (d : dna) | LfChoice (i n : nat) | LfChoiceLit (i n : nat) (l : lit) | LfLit (l : lit).
+Inductive dvalue := DS (x : dleaf) | DL (l : list dleaf).
+Definition dict := list (dkey * dvalue).
+Definition dkey_eqb (a b : dkey) : bool :=
+  match a, b with
+  | DKId x, DKId y => did_eqb x y
+  | DKName x, DKName y => str_eqb x y
+  | DKSpec x, DKSpec y => addr_eqb x y
+  | _, _ => false end.
+Fixpoint dget (d : dict) (k : dkey) : option dvalue :=
+  match d with [] => None | (k', v) :: r => if dkey_eqb k' k then Some v else dget r k end.
+Fixpoint dset (d : dict) (k : dkey) (v : dvalue) : dict :=
+  match d with [] => [(k, v)] | (k', v') :: r => if dkey_eqb k' k then (k', v) :: r else (k', v') :: dset r k v end.
+(* to_dict._put: a second value under the same key makes a list *)
+Definition dput (d : dict) (k : dkey) (x : dleaf) : dict :=
+  match dget d k with
+  | None => dset d k (DS x)
+  | Some (DS y) => dset d k (DL [y; x])
+  | Some (DL l) => dset d k (DL (l ++ [x]))
+  end.
+
+Definition key_of (kt : key_type) (id : did) (name : option str) (a : addr) : dkey :=
+  match kt with
+  | KT_id => DKId id
+  | KT_name_or_id => match name with Some s => DKName s | None => DKId id end
+  | KT_dna_spec => DKSpec a
+  end.
+Definition use_parent (m : mc_key) : bool := match m with MC_subchoice => false | _ => true end.
+Definition use_sub (m : mc_key) : bool := match m with MC_parent => false | _ => true end.
+Definition needs_subchoice_key (kt : key_type) (m : mc_key) (name : option str) : bool :=
+  use_sub m && (negb (use_parent m) ||
+                (match kt with KT_name_or_id => false | _ => true end || match name with None => true | Some _ => false end)).
+Definition lit_eqb (a b : lit) : bool :=
+  match a, b with
+  | LStr x, LStr y => str_eqb x y
+  | LInt x, LInt y => Z.eqb x y
+  | LFlt x, LFlt y => Z.eqb x y
+  | LInt x, LFlt y | LFlt y, LInt x => Z.eqb (x * 64) y      (* Python: 1 == 1.0 *)
+  | _, _ => false end.
+(* Choices.format_candidate *)
+Definition format_candidate (vt : value_type) (n : nat) (lits : list lit) (c : nat) (node : dna) : dleaf :=
+  match vt with
+  | VT_value => LfV (VInt (Z.of_nat c))
+  | VT_dna => LfDna node
+  | VT_choice => LfChoice c n
+  | VT_literal => match nth_error lits c with Some l => LfLit l | None => LfChoice c n end
+  | VT_choice_and_literal => match nth_error lits c with Some l => LfChoiceLit c n l | None => LfChoice c n end
+  end.
+
+Section ToDict.
+  Variable infos : list dpinfo.
+  Variables (kt : key_type) (vt : value_type) (m : mc_key).
+  (* to_dict._dump_node *)
+  Fixpoint dump (b : bdna) (d : dict) {struct b} : dict :=
+    match b with B v sp kids =>
+      let d1 :=
+        match sp with
+        | None => d
+        | Some a =>
+          match info_at infos a with
+          | None => d                                  (* bound to a Space or to a multi-choice: no entry *)
+          | Some i =>
+            let k := key_of kt (i_id i) (i_name i) a in
+            match i_kind i with
+            | PKChoice n lits =>
+                match v with
+                | VInt z =>
+                    let x := format_candidate vt n lits (Z.to_nat z) (strip b) in
+                    match i_sub i with
+                    | Some (_, pa, pid) =>
+                        let d' := if use_parent m then dput d (key_of kt pid (i_name i) pa) x else d in
+                        if needs_subchoice_key kt m (i_name i) then dput d' k x else d'
+                    | None => dput d k x
+                    end
+                | _ => d
+                end
+            | _ => dput d k (match vt with VT_dna => LfDna (strip b) | _ => LfV v end)
+            end
+          end
+        end in
+      fold_left (fun acc c => dump c acc) kids d1
+    end.
+  (* include_inactive_decisions=True: one entry per decision point, in declaration order *)
+  Definition with_inactive (d : dict) : dict :=
+    fold_left (fun res i =>
+      let get := fun k => match dget d k with Some v => v | None => DS LfNone end in
+      match i_sub i with
+      | Some (idx, pa, pid) =>
+          let res1 := if use_parent m && (idx =? 0)
+                      then let k := key_of kt pid (i_name i) pa in dset res k (get k) else res in
+          if needs_subchoice_key kt m (i_name i)
+          then let k := key_of kt (i_id i) (i_name i) (i_addr i) in dset res1 k (get k) else res1
+      | None => let k := key_of kt (i_id i) (i_name i) (i_addr i) in dset res k (get k)
+      end) infos [].
+  Definition to_dict (inactive : bool) (b : bdna) : dict :=
+    let d := dump b [] in if inactive then with_inactive d else d.
+End ToDict.
+
+(* ---- lookups: DNA.__getitem__ by decision point / id / name ------------------------------------------ *)
+(* DNA._decision_by_id *)
+Definition decision_by_id (infos : list dpinfo) (b : bdna) : dict := to_dict infos KT_id VT_dna MC_both true b.
+(* DNA.named_decisions *)
+Definition named_decisions (infos : list dpinfo) (b : bdna) : list (str * dvalue) :=
+  let byspec := to_dict infos KT_dna_spec VT_dna MC_parent true b in
+  fold_left (fun (acc : list (str * dvalue)) (kv : dkey * dvalue) =>
+    match fst kv with
+    | DKSpec a =>
+        (* the key is the address of a decision point or of a multi-choice parent *)
+        let nm := match find (fun i => addr_eqb (i_addr i) a || match i_sub i with Some (_, pa, _) => addr_eqb pa a | None => false end) infos with
+                  | Some i => i_name i | None => None end in
+        match nm with
+        | None => acc
+        | Some s =>
+            let cur := (fix get (l : list (str * dvalue)) := match l with [] => None | (s', v) :: r => if str_eqb s' s then Some v else get r end) acc in
+            let dnas := match snd kv with DS x => [x] | DL l => l end in
+            let nv := match cur with
+                      | None | Some (DS LfNone) => snd kv
+                      | Some (DL l) => DL (l ++ dnas)
+                      | Some (DS x) => DL (x :: dnas)
+                      end in
+            (fix set (l : list (str * dvalue)) := match l with
+               | [] => [(s, nv)]
+               | (s', v) :: r => if str_eqb s' s then (s', nv) :: r else (s', v) :: set r end) acc
+        end
+    | _ => acc
+    end) byspec [].
+
+(* ---- DNA.from_dict ----------------------------------------------------------------------------------- *)
+Definition leaf_is_none (x : dleaf) : bool := match x with LfNone => true | _ => false end.
+Definition dv_is_none (v : dvalue) : bool := match v with DS x => leaf_is_none x | DL _ => false end.
+(* from_dict._get_decision: by id, then by spec object, then by name (a list under a name is consumed
+   one item at a time: the input dictionary is updated) *)
+Definition get_decision (id : did) (a : addr) (name : option str) (d : dict) : option dvalue * dict :=
+  let nn := fun o => match o with Some v => if dv_is_none v then None else Some v | None => None end in
+  match nn (dget d (DKId id)) with
+  | Some v => (Some v, d)
+  | None =>
+    match nn (dget d (DKSpec a)) with
+    | Some v => (Some v, d)
+    | None =>
+      match name with
+      | None => (None, d)
+      | Some s =>
+          match dget d (DKName s) with
+          | Some (DL l) => (match l with [] => None | x :: _ => if leaf_is_none x then None else Some (DS x) end, dset d (DKName s) (DL (tl l)))
+          | Some v => (nn (Some v), d)
+          | None => (None, d)
+          end
+      end
+    end
+  end.
+(* Choices.candidate_index / from_dict._choice_index.  None = ValueError *)
+Definition index_from_literal (lits : list lit) (l : lit) : option nat :=
+  (fix go (i : nat) (ls : list lit) (found : option nat) : option nat :=
+     match ls with [] => found | x :: r => go (S i) r (if lit_eqb x l then Some i else found) end) O lits None.
+Definition choice_index (ints_as_lits : bool) (n : nat) (lits : list lit) (x : dleaf) : option nat :=
+  let in_range := fun i => if i <? n then Some i else None in
+  match x with
+  | LfV (VInt z) =>
+      if ints_as_lits then index_from_literal lits (LInt z)
+      else if (0 <=? z)%Z && (z <? Z.of_nat n)%Z then Some (Z.to_nat z) else None
+  | LfV (VFlt f) => index_from_literal lits (LFlt f)
+  | LfV (VStr s) | LfLit (LStr s) => index_from_literal lits (LStr s)
+  | LfLit (LInt z) => if ints_as_lits then index_from_literal lits (LInt z)
+                      else if (0 <=? z)%Z && (z <? Z.of_nat n)%Z then Some (Z.to_nat z) else None
+  | LfLit (LFlt f) => index_from_literal lits (LFlt f)
+  | LfChoice i n' => if n' =? n then in_range i else None
+  | LfChoiceLit i n' l =>
+      if (n' =? n) && (i <? n) then
+        match nth_error lits i with
+        | Some l' => if lit_eqb l l' then Some i else None       (* str(literal) must match the candidate's *)
+        | None => None end
+      else None
+  | _ => None
+  end.
+Section FromDict.
+  Variable ints_as_lits : bool.
+  (* from_dict._make_dna; the dictionary is threaded because _get_decision updates it *)
+  Fixpoint make_dna (s : dspec) (a : addr) (pid : did) (d : dict) {struct s} : option (dna * dict) :=
+    match s with Space es =>
+      match (fix go (i : nat) (es : list dpoint) (d : dict) : option (list dna * dict) :=
+               match es with
+               | [] => Some ([], d)
+               | e :: r => match make_dna_p e (a ++ [i]) pid d with
+                           | Some (x, d1) => match go (S i) r d1 with Some (xs, d2) => Some (x :: xs, d2) | None => None end
+                           | None => None end
+               end) O es d with
+      | Some (cs, d') => Some (mk VNone cs, d')
+      | None => None end end
+  with make_dna_p (p : dpoint) (a : addr) (pid : did) (d : dict) {struct p} : option (dna * dict) :=
+    match p with
+    | Choices k cands _ _ (loc, name) lits =>
+        let n := length cands in
+        let id := pid ++ loc in
+        let multi := negb (k =? 1) in
+        match (fix go (idxs : list nat) (d : dict) : option (list dna * dict) :=
+                 match idxs with
+                 | [] => Some ([], d)
+                 | i :: r =>
+                     let a' := if multi then a ++ [i] else a in
+                     let id' := if multi then id ++ [KIdx i] else id in
+                     let (v0, d0) := get_decision id' a' name d in
+                     (* decisions of a multi-choice collapsed under the parent's key *)
+                     let (v1, d1) := match v0 with
+                                     | Some v => (Some v, d0)
+                                     | None => if multi then
+                                                 match get_decision id a name d0 with
+                                                 | (Some (DL l), d') => (if length l =? k then match nth_error l i with Some x => Some (DS x) | None => None end else None, d')
+                                                 | (Some (DS _), d') => (None, d')      (* indexing a scalar: TypeError *)
+                                                 | (None, d') => (None, d') end
+                                               else (None, d0)
+                                     end in
+                     match v1 with
+                     | Some (DS (LfDna sub)) =>
+                         match go r d1 with Some (xs, d2) => Some (sub :: xs, d2) | None => None end
+                     | Some (DS x) =>
+                         match choice_index ints_as_lits n lits x with
+                         | None => None
+                         | Some c =>
+                             match with_nth (fun cand => make_dna cand (a' ++ [c]) (id' ++ [KCond c n]) d1) None cands c with
+                             | Some (sub, d2) =>
+                                 match go r d2 with
+                                 | Some (xs, d3) => Some (mk (VInt (Z.of_nat c)) [sub] :: xs, d3)
+                                 | None => None end
+                             | None => None end
+                         end
+                     | _ => None
+                     end
+                 end) (seq 0 k) d with
+        | Some (cs, d') => Some (mk VNone cs, d')
+        | None => None end
+    | FloatP lo hi (loc, name) =>
+        match get_decision (pid ++ loc) a name d with
+        | (Some (DS x), d') =>
+            let v := match x with LfDna (D v _) => Some v | LfV v => Some v | LfLit (LFlt f) => Some (VFlt f) | LfLit (LInt z) => Some (VInt z) | _ => None end in
+            match v with
+            | Some (VFlt f) => if (lo <=? f)%Z && (f <=? hi)%Z then Some (D (VFlt f) [], d') else None
+            | Some (VInt z) => if (lo <=? z * 64)%Z && (z * 64 <=? hi)%Z then Some (D (VInt z) [], d') else None
+            | _ => None end
+        | _ => None end
+    | CustomP (loc, name) =>
+        match get_decision (pid ++ loc) a name d with
+        | (Some (DS x), d') =>
+            match x with
+            | LfDna (D (VStr s) _) | LfV (VStr s) | LfLit (LStr s) => Some (D (VStr s) [], d')
+            | _ => None end
+        | _ => None end
+    end.
+  Definition from_dict (q : quirks) (s : dspec) (d : dict) : option bdna :=
+    match make_dna s [] [] d with
+    | Some (x, _) => bind q s x
+    | None => None end.
+End FromDict.
